@@ -782,6 +782,41 @@ def strip(recipe):
     return recipe
 
 
+def mouse_kind(entries, sid, want):
+    """None if exactly the leaf `sid` got the event once with coordinates `want`, else the kind of mismatch"""
+    if not entries:
+        return "not-delivered"
+    others = [e for e in entries if e[1] != sid]
+    mine = [e for e in entries if e[1] == sid]
+    if others and not mine:
+        return "wrong-leaf"
+    if others:
+        return "also-other-leaf"
+    if len(mine) > 1:
+        return "delivered-twice"
+    e = mine[0]
+    if (e[5], e[6]) != tuple(want):
+        return "wrong-coords:" + ("col" if e[5] != want[0] else "") + ("row" if e[6] != want[1] else "")
+    return None
+
+
+def move_kind(ret, mine, expect, lx, ly):
+    """None if the container's answer equals the leaf's (expected) answer and the leaf was asked about (lx, ly)"""
+    if ret not in (True, False):
+        return "non-bool-result"
+    if bool(ret) != expect:
+        if not mine:
+            kind = "leaf-not-asked"
+        elif (mine[-1][3], mine[-1][4]) != (lx, ly):
+            kind = "wrong-coords-to-leaf"
+        else:
+            kind = "result-differs-from-leaf-answer"
+        return kind + ":returned-" + str(bool(ret))
+    if mine and (mine[-1][3], mine[-1][4]) != (lx, ly) and isinstance(mine[-1][3], int):
+        return "wrong-coords-to-leaf:same-answer"
+    return None
+
+
 def _locate_in(canv, leaf):
     """top-left of `leaf` inside a canvas, read off that canvas (same rule as observe)"""
     grid = read_grid(canv)
@@ -852,30 +887,39 @@ def blame(recipe, size, focus, v):
         c, r = op["col"] - ax, op["row"] - ay
         lx, ly = op["col"] - left, op["row"] - top
         del log[:]
-        ok = True
+        pk = None  # kind of failure shown by this ancestor on its own, in the same vocabulary as Case.viol
         try:
             if op["op"] == "mouse":
-                anc.w.mouse_event(sz, op["event"], op["button"], c, r, f_anc)
-                ent = [e for e in log if e[0] == "mouse"]
-                ok = len(ent) == 1 and ent[0][1] == leaf.sid and (ent[0][5], ent[0][6]) == (lx, ly)
+                try:
+                    anc.w.mouse_event(sz, op["event"], op["button"], c, r, f_anc)
+                except Exception as e:  # noqa: BLE001
+                    pk = f"mouse_event-raise:{exc_kind(e)}"
+                else:
+                    pk = mouse_kind([e for e in log if e[0] == "mouse"], leaf.sid, (lx, ly))
             else:
                 if not hasattr(anc.w, "move_cursor_to_coords"):
                     continue
-                ret = anc.w.move_cursor_to_coords(sz, c, r)
-                mine = [e for e in log if e[0] == "move" and e[1] == leaf.sid]
-                if leaf.kind == "spy":
-                    expect = S.accepts(leaf.recipe.get("acc", "all"), lx, ly, lcols, lrows)
-                elif mine and (mine[-1][3], mine[-1][4]) == (lx, ly):
-                    expect = bool(mine[-1][5])
+                try:
+                    ret = anc.w.move_cursor_to_coords(sz, c, r)
+                except Exception as e:  # noqa: BLE001
+                    pk = f"move_cursor-raise:{exc_kind(e)}"
                 else:
-                    expect = ly in edit_rows_with_position(leaf.recipe, leaf.w.last_size[0] if leaf.w.last_size else 0)
-                ok = bool(ret) == expect and not (mine and isinstance(mine[-1][3], int) and (mine[-1][3], mine[-1][4]) != (lx, ly))
-                if ok and ret and hasattr(anc.w, "get_cursor_coords"):
-                    rep_ = anc.w.get_cursor_coords(sz)
-                    if leaf.kind == "spy" or ly in edit_rows_with_position(leaf.recipe, leaf.w.last_size[0] if leaf.w.last_size else 0):
-                        ok = rep_ is not None and rep_[1] == r
+                    mine = [e for e in log if e[0] == "move" and e[1] == leaf.sid]
+                    on_row = ly in edit_rows_with_position(leaf.recipe, leaf.w.last_size[0] if leaf.w.last_size else 0) if leaf.kind == "Edit" else True
+                    if leaf.kind == "spy":
+                        expect = S.accepts(leaf.recipe.get("acc", "all"), lx, ly, lcols, lrows)
+                    elif mine and (mine[-1][3], mine[-1][4]) == (lx, ly):
+                        expect = bool(mine[-1][5])
+                    else:
+                        expect = on_row
+                    pk = move_kind(ret, mine, expect, lx, ly)
+                    if pk is None and ret and on_row and hasattr(anc.w, "get_cursor_coords"):
+                        rep_ = anc.w.get_cursor_coords(sz)
+                        if rep_ is None or rep_[1] != r:
+                            pk = "cursor-not-on-requested-row" + (":None" if rep_ is None else "")
         except Exception:  # noqa: BLE001
-            ok = False
+            continue
+        ok = pk != v["kind"]  # only the SAME kind of failure makes this ancestor the culprit
         if not ok:
             return node_desc(anc, child_toward(anc, leaf)) + ">" + node_desc(leaf), mode_of(sz)
     return None
